@@ -52,6 +52,8 @@ def one_sequence(args):
         # F: follower path, arbitrary batch splits
         i = 0
         splits = []
+        with_compaction = seed % 2 == 0
+        compacted = False
         pattern = rnd.choice(["singles", "small", "mixed", "one-big"])
         while i < len(reqs):
             b = {"singles": 1, "small": rnd.randrange(1, 4), "mixed": rnd.choice([1, 2, 5, 17, 60]), "one-big": len(reqs)}[pattern]
@@ -62,7 +64,11 @@ def one_sequence(args):
                 return res
             splits.append(len(chunk))
             i += len(chunk)
-        res["split_pattern"] = pattern
+            if with_compaction and not compacted and i >= len(reqs) // 2:
+                # R will be snapshot + log suffix instead of pure log replay
+                sf.call("actor_barrier", ms=30)
+                compacted = bool(sf.call("compact").get("ok"))
+        res["split_pattern"] = pattern + ("+snapshot" if compacted else "")
         dump_l = settled_dump(sl, gen)
         dump_f = settled_dump(sf, gen)
         viols = []
@@ -127,7 +133,7 @@ def run(tier, seed):
                 "batch splits; F's directory is then restarted (pure start-up replay = R). Dumps through the public actor queries are compared "
                 "L=F, F=R, L=R. non-trivial = sequence with >=8 request sub-kinds and >=1 compared item; distinct = (kind-set size, split pattern)")
     try:
-        n_seq = 32 if tier == "quick" else 1200
+        n_seq = 96 if tier == "quick" else 1600
         jobs = [(wd, seed * 100000 + i, [60, 150, 400][i % 3]) for i in range(n_seq)]
         with ThreadPoolExecutor(max_workers=common.NCPU // 2) as ex:
             results = list(ex.map(one_sequence, jobs))
